@@ -1444,8 +1444,8 @@ func runE2E(c *core.Ctx, fx *e2eFixture, r e2eRun) {
 				firstMissing = r.Kind + ":-"
 			}
 			sig := fmt.Sprintf("to2-failed-e2e:%s/%d-%d", firstMissing, r.DevMTU, r.OwnMTU)
-			if r.Kind == "upload" && r.OwnMTU <= 1040 && strings.Contains(terr.Error(), "fdo.upload:data") {
-				// fsim.Upload always sends 1014-byte data chunks: with an owner size of 1040 or less the device's chunking
+			if len(r.Uploads) > 0 && r.OwnMTU != 0 && r.OwnMTU <= 1041 && strings.Contains(terr.Error(), "fdo.upload:data") {
+				// fsim.Upload always sends 1014-byte data chunks: with an owner size of 1041 or less the device's chunking
 				// cuts one across two messages and the owner, which reassembles per message, cannot decode it
 				sig = "upload-data-chunk-split-by-small-owner-mtu"
 			}
